@@ -174,7 +174,7 @@ def _g_memory(rep):
     rep.guarded("R-C03-panic-sites", C03.rule_panics)
     rep.guarded("R-C03-validate-exact", C03.rule_validate_exact)
     rep.floor("R-C03-chan", 26)
-    rep.floor("R-C03-outwrite", 18)
+    rep.floor("R-C03-outwrite", 22)
     rep.floor("R-C03-alloc", 4)
     rep.floor("R-C03-window", 10)
     rep.floor("R-C03-guard", 18)
